@@ -16,13 +16,14 @@ handle_append_result, handle_log_flushed, handle_membership_applied}` by the `co
   stale terms, flushes, membership flips) `match_index` only grows, `next_index ≥ match_index + 1`
   is invariant, the commit index only grows.
 * `single_voter_commit` — the flush path of a single-voter leader commits exactly its last index.
-* **Defect F30 (open).** The vector handed to the median is built from the *keys present* in
-  `match_index`, and `update_match_index(peer, 0)` stores nothing, so a voter that has not yet
-  acknowledged anything is not in the vector at all. `CommitQuorumStatement` (the property as
-  stated: a majority of the *voters of the configuration* hold `N`) is therefore false —
-  `commit_quorum_statement_false` (witness: 3 voters, no acknowledgement, own flush commits);
-  `commit_quorum_partial` proves it under the excluded trigger `Tracked` (every voter of the cached
-  configuration has a `match_index` entry).
+* `commit_quorum` (= `CommitQuorumStatement`, the property as stated) — whenever the leader computes a
+  new commit index `N`, a strict majority of the voters of its cached configuration, itself
+  included, is known to hold `N` (voters that never acknowledged count with match index 0).
+* **Defect F30 (fixed by /repo 6ed8b1f).** Before the fix the vector handed to the median was built
+  from the *keys present* in `match_index`, and `update_match_index(peer, 0)` stores nothing, so a
+  voter that had not yet acknowledged anything was not in the vector at all: `f30_regression` keeps
+  the old computation (`calcNewCommitSparse`) and its witness (3 voters, no acknowledgement, the
+  leader's own flush commits) next to the proof that the current computation refuses it.
 -/
 namespace DEngine.C09
 open DEngine.Commit DEngine.Memb
@@ -77,11 +78,31 @@ theorem new_commit_sound (s : Leader) (N : Nat) (h : calcNewCommit s = some N) :
 
 /-! ### learners -/
 
+theorem isVoterTarget_iff (targets : List Node) (id : Nat) :
+    isVoterTarget targets id = true ↔ id ∈ voterPeers targets := by
+  unfold isVoterTarget voterPeers
+  rw [List.any_eq_true, List.mem_map]
+  constructor
+  · rintro ⟨n, hn, hp⟩
+    simp at hp
+    exact ⟨n, List.mem_filter.mpr ⟨hn, by simpa using hp.2⟩, hp.1⟩
+  · rintro ⟨n, hn, hid⟩
+    have := List.mem_filter.mp hn
+    exact ⟨n, this.1, by simp [hid]; simpa using this.2⟩
+
 theorem voterMatches_insert_nonvoter (s : Leader) (id m : Nat) (h : isVoterTarget s.targets id = false) :
     voterMatches { s with matchIdx := minsert s.matchIdx id m } = voterMatches s := by
   unfold voterMatches
   simp only
-  rw [filter_minsert_of_not (fun k => isVoterTarget s.targets k) _ _ _ h]
+  apply List.map_congr_left
+  intro k hk
+  rw [mgetD_minsert]
+  have hne : k ≠ id := by
+    intro hkid
+    subst hkid
+    have := (isVoterTarget_iff s.targets k).mpr hk
+    rw [h] at this; cases this
+  simp [hne]
 
 /-- **Learners (and strangers) are never counted**: whatever is stored in `match_index` under an id
     that is not a voter of the cached configuration, the commit computation does not see it. -/
@@ -436,130 +457,76 @@ theorem single_voter_iff (s : Leader) :
 example : (handleLogFlushed (refreshMetadata { term := 2, commit := 1, log := [1, 1, 2], view := { nodes := [⟨1, 1, 3⟩, ⟨2, 4, 1⟩] } }) 3).map
     (fun o => o.1.commit) = some 3 := by decide
 
-/-! ### the quorum over the *configuration's* voters: full statement, refutation (F30), partial -/
+/-! ### the quorum over the *configuration's* voters (the property as stated) -/
 
-/-- every voter of the cached configuration has an entry in `match_index` -/
-def Tracked (s : Leader) : Prop := ∀ id ∈ voterPeers s.targets, (mget s.matchIdx id).isSome = true
-
-/-- **The property as stated**: whenever the leader (in any state reachable from becoming leader of a
-    configuration with distinct node ids) computes a new commit index `N`, a strict majority of the
-    voters of its configuration — itself included — is known to hold `N`. -/
+/-- **The property as stated**: whenever the leader (in any state reachable from becoming leader)
+    computes a new commit index `N`, a strict majority of the voters of its cached configuration —
+    itself included — is known to hold `N`, `N` is an entry of its current term inside its log. -/
 def CommitQuorumStatement : Prop :=
   ∀ (term commit cu : Nat) (log : List Nat) (nodes : List Node) (ops : List Op) (s : Leader) (N : Nat),
-    (nodes.map (·.id)).Nodup →
     run (initLeader term commit cu log nodes) ops = some s →
     calcNewCommit s = some N →
-    (voterPeers s.targets).length + 1 < 2 * holders N (voterPeers s.targets) s.matchIdx
+    (voterPeers s.targets).length + 1 < 2 * holders N (voterPeers s.targets) s.matchIdx ∧
+      entryTerm s.log N = some s.term ∧ s.commit < N ∧ N ≤ s.log.length
 
-/-- witness: three voters, nobody has acknowledged anything, one current-term entry -/
-def f30Witness : Leader := initLeader 1 0 1 [1] [⟨1, 1, 3⟩, ⟨2, 1, 3⟩, ⟨3, 1, 3⟩]
-
-/-- **Refutation (defect F30).** Right after the election, with no acknowledgement at all, the
-    commit computation returns index 1 although only 1 of 3 voters holds it. -/
-theorem commit_quorum_statement_false : ¬ CommitQuorumStatement := by
-  intro h
-  have := h 1 0 1 [1] [⟨1, 1, 3⟩, ⟨2, 1, 3⟩, ⟨3, 1, 3⟩] [] f30Witness 1 (by decide) rfl (by decide)
-  revert this
-  decide
-
-theorem mget_of_mem_nodup : ∀ (m : IdxMap), (m.map (·.1)).Nodup → ∀ e ∈ m, mget m e.1 = some e.2
-  | [], _, e, he => by simp at he
-  | x :: rest, hnd, e, he => by
-    have hnd' : ¬ x.1 ∈ rest.map (·.1) ∧ (rest.map (·.1)).Nodup := List.nodup_cons.mp hnd
-    rw [mget_cons]
-    rcases List.mem_cons.mp he with he | he
-    · subst he; simp
-    · have hne : ¬ x.1 = e.1 := by
-        intro hx
-        apply hnd'.1
-        rw [hx]
-        exact List.mem_map.mpr ⟨e, he, rfl⟩
-      simp [hne]
-      exact mget_of_mem_nodup rest hnd'.2 e he
-
-theorem mem_of_mget {m : IdxMap} {k v : Nat} (h : mget m k = some v) : (k, v) ∈ m := by
-  unfold mget at h
-  cases hf : m.find? (·.1 == k) with
-  | none => simp [hf] at h
-  | some e =>
-    simp [hf] at h
-    have hk := List.find?_some hf
-    have hm := List.mem_of_find?_eq_some hf
-    have : e = (k, v) := by
-      cases e with
-      | mk a b => simp at hk h; subst hk; subst h; rfl
-    rw [← this]; exact hm
-
-theorem isVoterTarget_iff (targets : List Node) (id : Nat) :
-    isVoterTarget targets id = true ↔ id ∈ voterPeers targets := by
-  unfold isVoterTarget voterPeers
-  rw [List.any_eq_true, List.mem_map]
-  constructor
-  · rintro ⟨n, hn, hp⟩
-    simp at hp
-    exact ⟨n, List.mem_filter.mpr ⟨hn, by simpa using hp.2⟩, hp.1⟩
-  · rintro ⟨n, hn, hid⟩
-    have := List.mem_filter.mp hn
-    exact ⟨n, this.1, by simp [hid]; simpa using this.2⟩
-
-/-- under `Tracked` (and distinct keys / ids) the vector given to the median is a permutation of the
-    match indexes of *all* voters of the configuration -/
-theorem voterMatches_perm (s : Leader) (hk : (s.matchIdx.map (·.1)).Nodup)
-    (ht : (s.targets.map (·.id)).Nodup) (htr : Tracked s) :
-    (voterMatches s).Perm ((voterPeers s.targets).map (mgetD s.matchIdx)) := by
-  let K := s.matchIdx.filter fun e => isVoterTarget s.targets e.1
-  have hKnd : (K.map (·.1)).Nodup := (List.filter_sublist.map _).nodup hk
-  have hVnd : (voterPeers s.targets).Nodup := by
-    unfold voterPeers; exact (List.filter_sublist.map _).nodup ht
-  have hperm : (K.map (·.1)).Perm (voterPeers s.targets) := by
-    rw [List.perm_ext_iff_of_nodup hKnd hVnd]
-    intro k
-    constructor
-    · intro hkm
-      obtain ⟨e, he, hek⟩ := List.mem_map.mp hkm
-      have := (List.mem_filter.mp he).2
-      rw [← hek]; exact (isVoterTarget_iff _ _).mp this
-    · intro hkv
-      obtain ⟨v, hv⟩ := Option.isSome_iff_exists.mp (htr k hkv)
-      have hmem := mem_of_mget hv
-      exact List.mem_map.mpr ⟨(k, v), List.mem_filter.mpr ⟨hmem, (isVoterTarget_iff _ _).mpr hkv⟩, rfl⟩
-  have hvals : voterMatches s = (K.map (·.1)).map (mgetD s.matchIdx) := by
-    unfold voterMatches
-    rw [List.map_map]
-    apply List.map_congr_left
-    intro e he
-    have hem := (List.mem_filter.mp he).1
-    simp [mgetD, mget_of_mem_nodup s.matchIdx hk e hem]
-  rw [hvals]
-  exact hperm.map _
-
-/-- **Partial theorem (the stated property under the excluded trigger).** If every voter of the
-    cached configuration is tracked in `match_index`, a new commit index is held by a strict majority
-    of the configuration's voters, is of the current term and lies in the leader's log. -/
-theorem commit_quorum_partial (s : Leader) (N : Nat) (hk : (s.matchIdx.map (·.1)).Nodup)
-    (ht : (s.targets.map (·.id)).Nodup) (htr : Tracked s) (h : calcNewCommit s = some N) :
+/-- for every leader state (reachable or not) -/
+theorem commit_quorum (s : Leader) (N : Nat) (h : calcNewCommit s = some N) :
     (voterPeers s.targets).length + 1 < 2 * holders N (voterPeers s.targets) s.matchIdx ∧
       entryTerm s.log N = some s.term ∧ s.commit < N ∧ N ≤ s.log.length := by
   have hs := new_commit_sound s N h
-  have hp := voterMatches_perm s hk ht htr
   have hlen : (voterMatches s).length = (voterPeers s.targets).length := by
-    rw [hp.length_eq, List.length_map]
+    unfold voterMatches; rw [List.length_map]
   have hcnt : countGE N (s.log.length :: voterMatches s) = holders N (voterPeers s.targets) s.matchIdx := by
-    rw [countGE_cons, countGE_perm hp]
-    unfold holders
+    rw [countGE_cons]
+    unfold holders voterMatches
     have : N ≤ s.log.length := hs.2.1
     simp [this]
   refine ⟨?_, hs.2.2.1, hs.1, hs.2.1⟩
   rw [← hcnt, ← hlen]
   exact hs.2.2.2
 
-/-- non-vacuity of the partial theorem: 5 voters, all tracked, 3 of 5 hold index 3 -/
+theorem commit_quorum_statement : CommitQuorumStatement :=
+  fun _ _ _ _ _ _ s N _ h => commit_quorum s N h
+
+/-- every commit-index move of every step obeys it: an acknowledgement / flush that moves the commit
+    index of a multi-voter leader moves it to an index with a voter majority -/
+theorem flush_commit_quorum (s : Leader) (d : Nat) (out : Leader × List String × String)
+    (hs : s.singleVoter = false) (h : handleLogFlushed s d = some out) (hmove : out.1.commit ≠ s.commit) :
+    (voterPeers s.targets).length + 1 < 2 * holders out.1.commit (voterPeers s.targets) s.matchIdx ∧
+      entryTerm s.log out.1.commit = some s.term := by
+  unfold handleLogFlushed at h
+  simp [hs] at h
+  split at h
+  · rename_i n hn
+    injection h with h; subst h
+    have := commit_quorum s n hn
+    exact ⟨this.1, this.2.1⟩
+  · injection h with h; subst h; exact absurd rfl hmove
+
+/-- non-vacuity: 5 voters, 3 of 5 hold index 3 -/
 def exTracked : Leader :=
   { term := 2, commit := 1, log := [1, 2, 2], view := { nodes := [] },
     targets := [⟨2, 1, 3⟩, ⟨3, 1, 3⟩, ⟨4, 1, 3⟩, ⟨5, 1, 3⟩, ⟨6, 4, 1⟩],
-    matchIdx := [(2, 3), (3, 3), (4, 1), (5, 0), (6, 3)] }
-example : calcNewCommit exTracked = some 3 ∧ (exTracked.matchIdx.map (·.1)).Nodup ∧
-    (exTracked.targets.map (·.id)).Nodup ∧
-    (∀ id ∈ voterPeers exTracked.targets, (mget exTracked.matchIdx id).isSome = true) := by decide
+    matchIdx := [(2, 3), (3, 3), (4, 1), (6, 3)] }
+example : calcNewCommit exTracked = some 3 := by decide
+/-- … and with one holder less (2 of 5, the learner 6 does not help) nothing commits -/
+example : calcNewCommit { exTracked with matchIdx := [(2, 3), (4, 1), (6, 3)] } = none := by decide
+
+/-! ### regression of defect F30 (fixed by /repo 6ed8b1f) -/
+
+/-- `calculate_new_commit_index` as it was before the fix: median over the entries present -/
+def calcNewCommitSparse (s : Leader) : Option Nat :=
+  match calcMajority s.term s.commit (voterMatchesSparse s) s.log with
+  | some n => if n > s.commit then some n else none
+  | none => none
+
+/-- witness: three voters, nobody has acknowledged anything, one current-term entry -/
+def f30Witness : Leader := initLeader 1 0 1 [1] [⟨1, 1, 3⟩, ⟨2, 1, 3⟩, ⟨3, 1, 3⟩]
+
+/-- The old computation committed index 1 with 1 of 3 voters; the current one refuses. -/
+theorem f30_regression :
+    calcNewCommitSparse f30Witness = some 1 ∧
+    ¬ ((voterPeers f30Witness.targets).length + 1 < 2 * holders 1 (voterPeers f30Witness.targets) f30Witness.matchIdx) ∧
+    calcNewCommit f30Witness = none := by decide
 
 end DEngine.C09
